@@ -92,6 +92,11 @@ theorem tCCS_ne_tApp : tCCS ≠ tApp := by decide
 theorem tApp_ne_tCCS : ¬ tApp = tCCS := by decide
 theorem tHs_ne_tCCS : ¬ tHandshake = tCCS := by decide
 theorem tHs_ne_tApp : ¬ tHandshake = tApp := by decide
+/-- The interpreted `switch rec.Type` table says: ChangeCipherSpec is skipped, application data is
+delivered, a handshake record is the "handshake" error. -/
+theorem act_CCS : actionOf tCCS = .skip := by decide
+theorem act_App : actionOf tApp = .deliver := by decide
+theorem act_Hs : actionOf tHandshake = .errHandshake := by decide
 
 /-! ### What reads deliver from a stream of ChangeCipherSpec / application records -/
 
@@ -124,12 +129,11 @@ theorem appData_records : ∀ (rs : List (Bool × Bytes)) (fuel : Nat),
       simp only
       cases hb : r.1 with
       | true =>
-        have h1 : ¬ (tApp = tCCS) := fun h => tCCS_ne_tApp h.symm
-        simp only [if_true, h1, if_false]
+        simp only [if_true, act_App]
         rw [hrest]
         simp [appOf, hb]
       | false =>
-        simp only [Bool.false_eq_true, if_false, if_true]
+        simp only [Bool.false_eq_true, if_false, act_CCS]
         rw [hrest]
         simp [appOf, hb]
 
@@ -237,10 +241,11 @@ theorem delivered_step (s : Bytes) :
     delivered s = match readRecord s with
       | .error e => ([], e)
       | .ok (r, rest) =>
-        if r.ty = tCCS then delivered rest
-        else if r.ty = tApp then (r.data ++ (delivered rest).1, (delivered rest).2)
-        else if r.ty = tHandshake then ([], .handshake)
-        else ([], .unsupported r.ty.toNat) := by
+        match actionOf r.ty with
+        | .skip => delivered rest
+        | .deliver => (r.data ++ (delivered rest).1, (delivered rest).2)
+        | .errHandshake => ([], .handshake)
+        | .errOther => ([], .unsupported r.ty.toNat) := by
   unfold delivered
   rw [appData]
   cases hr : readRecord s with
@@ -249,6 +254,7 @@ theorem delivered_step (s : Bytes) :
     obtain ⟨r, rest⟩ := v
     have hl := (readRecord_rest hr).1
     simp only [appData_fuel s.length (rest.length + 1) rest (by omega) (by omega)]
+    cases actionOf r.ty <;> rfl
 
 /-- One `Read` call: returns a non-empty piece (for a non-empty buffer argument) of at most `k`
 bytes of what is pending, and leaves the rest pending; whatever `k` is. -/
@@ -286,18 +292,19 @@ theorem readCall_ok : ∀ (fuel k : Nat) (st st' : RState) (out : Bytes), st.con
         rw [hr] at h
         have hl := (readRecord_rest hr).1
         simp only at h ⊢
-        split at h
-        · rename_i hc
+        cases ha : actionOf r.ty with
+        | skip =>
+          rw [ha] at h
           have := ih k { buf := [], conn := rest } st' out (by simp only; omega) h
-          simp only [hc, if_true, hbuf]
+          simp only [hbuf]
           simpa using this
-        · rename_i hc
-          split at h
-          · rename_i ha
-            have := ih k { buf := r.data, conn := rest } st' out (by simp only; omega) h
-            simp only [ha, tApp_ne_tCCS, if_false, if_true, hbuf, List.nil_append]
-            simpa using this
-          · split at h <;> simp at h
+        | deliver =>
+          rw [ha] at h
+          have := ih k { buf := r.data, conn := rest } st' out (by simp only; omega) h
+          simp only [hbuf, List.nil_append]
+          simpa using this
+        | errHandshake => rw [ha] at h; simp at h
+        | errOther => rw [ha] at h; simp at h
 
 /-- A `Read` call fails only when nothing is pending, and then with the stream's terminating error. -/
 theorem readCall_err : ∀ (fuel k : Nat) (st : RState) (e : Err), st.conn.length < fuel →
@@ -321,28 +328,23 @@ theorem readCall_err : ∀ (fuel k : Nat) (st : RState) (e : Err), st.conn.lengt
         rw [hr] at h
         have hl := (readRecord_rest hr).1
         simp only at h ⊢
-        split at h
-        · rename_i hc
-          have := ih k { buf := [], conn := rest } e (by simp only; omega) h
-          simp only [hc, if_true]
-          exact this.2
-        · rename_i hc
-          split at h
-          · rename_i ha
-            have := ih k { buf := r.data, conn := rest } e (by simp only; omega) h
-            -- a non-empty application record would have been delivered, not failed
-            simp only [ha, tApp_ne_tCCS, if_false, if_true]
-            obtain ⟨hd, hrest⟩ := this
-            simp only at hd hrest
-            rw [hd, hrest]; rfl
-          · rename_i ha
-            split at h
-            · rename_i hh
-              simp only [Except.error.injEq] at h; subst h
-              simp [hh, tHs_ne_tCCS, tHs_ne_tApp]
-            · rename_i hh
-              simp only [Except.error.injEq] at h; subst h
-              simp [hc, ha, hh]
+        cases ha : actionOf r.ty with
+        | skip =>
+          rw [ha] at h
+          exact (ih k { buf := [], conn := rest } e (by simp only; omega) h).2
+        | deliver =>
+          rw [ha] at h
+          have := ih k { buf := r.data, conn := rest } e (by simp only; omega) h
+          -- a non-empty application record would have been delivered, not failed
+          obtain ⟨hd, hrest⟩ := this
+          simp only at hd hrest
+          simp only [hd, hrest, List.nil_append]
+        | errHandshake =>
+          rw [ha] at h
+          simp only [Except.error.injEq] at h; subst h; rfl
+        | errOther =>
+          rw [ha] at h
+          simp only [Except.error.injEq] at h; subst h; rfl
 
 /-! ### The hello parser consumes a prefix of the stream -/
 
@@ -449,10 +451,10 @@ theorem pinned_len0 (L zs : Bytes) (hL : L.length = 65536) (hz : L = 0 :: 0 :: 0
   have n00 : (0 : UInt8).toNat * 256 + (0 : UInt8).toNat = 0 := by decide
   rw [hw, delivered_step, readRecord_cons5, n01]
   have h1 : ¬ (1 :: tApp :: 3 :: 3 :: 0 :: 0 :: L).length < 1 := by simp
-  simp only [h33, h1, if_false, if_true, List.drop_succ_cons, List.drop_zero]
+  simp only [h33, h1, if_false, if_true, act_CCS, List.drop_succ_cons, List.drop_zero]
   rw [delivered_step, readRecord_cons5, n00]
   have h2 : ¬ L.length < 0 := by omega
-  simp only [h33, h2, if_false, tApp_ne_tCCS, if_true, List.drop_zero, List.take_zero, List.nil_append]
+  simp only [h33, h2, if_false, act_App, List.drop_zero, List.take_zero, List.nil_append]
   rw [hz, delivered_step, readRecord_cons5]
   simp [h00]
 
